@@ -150,3 +150,75 @@ func TestVerifConcurrentSessions(t *testing.T) {
 		})
 	}
 }
+
+type zeroReader struct{}
+
+func (zeroReader) Read(p []byte) (int, error) {
+	for i := range p {
+		p[i] = 0
+	}
+	return len(p), nil
+}
+
+// TestVerifDegenerateRandomness: "for every ... blinding randomness": the
+// protocol completes and yields a valid signature also when the randomness
+// source returns only zero octets (the sampled blind is 0, which the library
+// replaces by 1).  (A source of only 0xFF octets is not used: crypto/rand.Int
+// never terminates on it, which is the source's doing.)
+func TestVerifDegenerateRandomness(t *testing.T) {
+	const mon = "TestVerifDegenerateRandomness"
+	lib.Mandatory("degenerate-randomness:sessions")
+	for _, kn := range []string{"plain-2048", "plain-1025"} {
+		k := loadKey(t, kn)
+		pub := &k.sk.PublicKey
+		for _, vi := range variants {
+			for ri, rd := range []interface {
+				Read([]byte) (int, error)
+			}{zeroReader{}} {
+				client, err := blindrsa.NewClient(vi.v, pub)
+				if err != nil {
+					t.Fatal(err)
+				}
+				signer := blindrsa.NewSigner(k.sk)
+				msg := []byte("degenerate randomness")
+				lib.CaseS("degenerate-randomness", kn, vi.name, fmt.Sprint(ri))
+				var prepared, sig []byte
+				var perr error
+				stage := ""
+				if pn := lib.Try("blindrsa:degenerate-randomness", nil, func() {
+					stage = "Prepare"
+					if prepared, perr = client.Prepare(rd, msg); perr != nil {
+						return
+					}
+					stage = "Blind"
+					blinded, st, err := client.Blind(rd, prepared)
+					if perr = err; err != nil {
+						return
+					}
+					stage = "BlindSign"
+					bsig, err := signer.BlindSign(blinded)
+					if perr = err; err != nil {
+						return
+					}
+					stage = "Finalize"
+					sig, perr = client.Finalize(st, bsig)
+				}); pn != nil {
+					perr = fmt.Errorf("panic: %s", pn.Value)
+				}
+				lib.Count("degenerate-randomness:sessions")
+				if perr == nil {
+					stage = "Verify"
+					perr = client.Verify(prepared, sig)
+				}
+				if perr == nil {
+					stage = "crypto/rsa.VerifyPSS"
+					perr = rsa.VerifyPSS(pub, crypto.SHA384, hashOf(crypto.SHA384, prepared), sig, &rsa.PSSOptions{SaltLength: vi.saltLen, Hash: crypto.SHA384})
+				}
+				if perr != nil {
+					lib.Violation("C18:protocol-fails:blindrsa:"+stage+":degenerate-randomness", mon,
+						lib.D("rsa_key", kn, "variant", vi.name, "randomness", []string{"all zero octets", "all 0xFF octets"}[ri], "stage", stage, "err", perr.Error()))
+				}
+			}
+		}
+	}
+}
